@@ -147,16 +147,11 @@ def execute(case, ctx):
             argv += [str(k), str(n), str(m)]
             res = call(cnfgen_cli, argv, mode="formula")
             climsg._prefix = ""
-            if case["plant"] and k <= n:
-                # recover the planted assignment from the PRNG transcript
-                signs = [ev[2] for ev in sim.transcript
-                         if ev[0] == "choice" and ev[1] == (2,)][:n]
-                if len(signs) == n:
-                    planted = [[(-1, 1)[s] * v
-                                for s, v in zip(signs, range(1, n + 1))]]
-                else:
-                    ctx.note("cli: planted assignment not recoverable")
-                    planted = None
+            # with -p the tool plants ONE random total assignment; which one
+            # is its own business (no assumption on how it is drawn): the
+            # maximum does not depend on it, and the result must be
+            # satisfied by *some* total assignment (checked below)
+            unknown_plant = bool(case["plant"]) and k <= n
         else:
             kw = {"formula_class": klass}
             if planted:
@@ -183,12 +178,14 @@ def execute(case, ctx):
         raise Violation("C13/%s/%s" % (kind, clause), "%s\n%s" %
                         (where, detail))
 
-    if planted is None:
-        return
+    unknown_plant = bool(case.get("cli") and case.get("plant") and k <= n)
     sets = [set(a) for a in planted]
     if k <= n:
-        allc = _ref_all_clauses(k, n, sets) if kind == "kcnf" else \
-            _ref_all_parities(k, n, sets)
+        # one planted total assignment excludes exactly one clause (resp.
+        # one of the two parities) per k-subset, whichever assignment it is
+        probe = [set(range(1, n + 1))] if unknown_plant else sets
+        allc = _ref_all_clauses(k, n, probe) if kind == "kcnf" else \
+            _ref_all_parities(k, n, probe)
         mx = len(allc)
     else:
         mx = -1
@@ -232,6 +229,11 @@ def execute(case, ctx):
             clauses.append(tuple(l for _, l in con[:-2]))
     else:
         clauses = [tuple(c) for c in F]
+    if unknown_plant:
+        if not cnfref.models(n, clauses, limit=1):
+            bad("planted-formula-unsatisfiable", "-p was given but no total "
+                "assignment satisfies %r" % (clauses,))
+        ctx.probe("cli -p: a satisfying assignment exists")
     if kind == "kcnf":
         if len(clauses) != m:
             bad("clause-count", "%d clauses" % len(clauses))
